@@ -223,3 +223,35 @@ CONTRACTS["excel:_parse_ts_header#duplicate_heading"] = dict(
 CONTRACTS["excel:_parse_ts_header#duplicate_year"] = dict(
     schema=schema, make_env=_make_env_parse(["table", "Units", 2020.0, 2020.0]), call_stubs={"get_column_letter": (lambda it, *a: "A")},
     raises={"Exception": "True"}, raises_props=["C16", "C18"], ensures=[], defined_props=["C16", "C18"])
+
+
+# ---- the Y/N matrix of a transfer / interaction table (TimeDependentConnections._write_pop_matrix, whole function): population names along the top and down the side, a `Y`
+# for every pair that has a series and an `N` for every other pair, `N.A.` on the diagonal of a table that has none; every cell's reference and what was written to it are
+# returned for the rows below (which are gated on these cells); an entry on the diagonal of such a table is refused
+def _env_matrix(entries, enable_diagonal=False):
+    def make(it):
+        from pyvc.interp import PyObjV
+        from pyvc.core import Opaque
+        from pyvc import source
+
+        em = source.load("excel")
+        self = PyObjV("TimeDependentConnections", em, {"code_name": "age", "from_pops": ["a", "b"], "to_pops": ["a", "b"], "enable_diagonal": enable_diagonal})
+        return {"self": self, "worksheet": PyObjV("Worksheet", em, {"CELLS": {}}), "start_row": 10, "formats": Opaque("formats"), "references": {"a": "=A1", "b": "=A2"}, "boolean_choice": True, "widths": {},
+                "ENTRIES": {k: "series" for k in entries}}
+
+    return make
+
+
+_mx_stubs = dict(_stubs)
+_mx_stubs.update({"worksheet.write_formula": _rec_formula, "xlrc": (lambda it, r, c, *a: "R%dC%d" % (r, c)), "np.full": (lambda it, shape, fill, dtype=None: np.full(shape, fill, dtype=object))})
+CONTRACTS["excel:TimeDependentConnections._write_pop_matrix#one_pair_with_data"] = dict(
+    schema=schema, make_env=_env_matrix([("a", "b")]), call_stubs=_mx_stubs, stubs={"self.ts": "ENTRIES"},
+    ensures=[("C16.population_names_head_the_columns_and_rows", "worksheet.CELLS[10, 1] == 'a' and worksheet.CELLS[10, 2] == 'b' and worksheet.CELLS[11, 0] == 'a' and worksheet.CELLS[12, 0] == 'b'"),
+             ("C16.a_pair_with_a_series_is_marked_y_every_other_pair_n_and_the_diagonal_not_applicable", "worksheet.CELLS[11, 2] == 'Y' and worksheet.CELLS[12, 1] == 'N' and worksheet.CELLS[11, 1] == 'N.A.' and worksheet.CELLS[12, 2] == 'N.A.' and len(worksheet.CELLS) == 8"),
+             ("C16.the_cell_of_every_pair_and_what_it_holds_are_returned_for_the_rows_below", "result[0] == 14 and result[1]['a', 'b'] == 'R11C2' and result[1]['b', 'a'] == 'R12C1' and len(result[1]) == 4 and result[2]['R11C2'] == 'Y' and result[2]['R12C1'] == 'N' and result[2]['R11C1'] == 'N.A.'")],
+    defined_props=["C16"])
+CONTRACTS["excel:TimeDependentConnections._write_pop_matrix#entry_on_a_diagonal_that_is_not_allowed"] = dict(
+    schema=schema, make_env=_env_matrix([("a", "a")]), call_stubs=_mx_stubs, stubs={"self.ts": "ENTRIES"}, raises={"Exception": "True"}, raises_props=["C16", "C18"], ensures=[], defined_props=["C16"])
+CONTRACTS["excel:TimeDependentConnections._write_pop_matrix#interaction_with_a_diagonal"] = dict(
+    schema=schema, make_env=_env_matrix([("a", "a"), ("b", "a")], enable_diagonal=True), call_stubs=_mx_stubs, stubs={"self.ts": "ENTRIES"},
+    ensures=[("C16.with_a_diagonal_every_pair_is_y_or_n", "worksheet.CELLS[11, 1] == 'Y' and worksheet.CELLS[11, 2] == 'N' and worksheet.CELLS[12, 1] == 'Y' and worksheet.CELLS[12, 2] == 'N'")], defined_props=["C16"])
